@@ -135,6 +135,15 @@ Check_WINHIST(r, tss) ==
                [newest |-> None, bad |-> {}], [i \in 1..Len(r.hist) |-> i])
   IN fin.bad \cup Failed_(<< <<"one_result_per_frame", Len(r.acc) = Len(r.hist)>>, <<"no_panic", ~r.panic>> >>)
 
+\* CONC: several readers sharing one dialect, each fed `passes` times a rotation of the stream `in` of valid frames
+\* (frames made by the specification); delivered / perr: per reader
+Check_CONC(r) ==
+  LET k == Len(CleanStarts(r["in"], [dl |-> r.dl, key |-> <<>>]))
+  IN Failed_(<< <<"no_panic", ~r.panic>>,
+                <<"H_stream_of_frames", k > 0>>,
+                <<"every_valid_frame_delivered_under_concurrency",
+                    \A i \in 1..Len(r.delivered) : r.delivered[i] = r.passes * k /\ r.perr[i] = 0>> >>)
+
 \* projection of a result sequence that must not depend on the chunking
 Proj(results) == [i \in 1..Len(results) |->
                     [k |-> results[i].k, cur |-> results[i].cur,
